@@ -242,7 +242,12 @@ func c19r1(c *RC) {
 					case "access", "need":
 						naccess++
 						okHeld := held[strings.ReplaceAll(e.key, " ", "")]
-						key := fmt.Sprintf("%s|%s|%s", fq, e.fld, e.key)
+						// the key names the guard by role, not by the spelling of the base expression
+						role := e.key
+						if r := recvNameOf(fn.Root()); r != "" {
+							role = replaceWord(role, r, "$recv")
+						}
+						key := fmt.Sprintf("%s|%s|%s", fq, e.fld, role)
 						if !okHeld {
 							excepted := false
 							for _, ex := range c19exceptions {
